@@ -278,12 +278,12 @@ def rule_ssrb_geometry(ctx, f):
             continue
         d1, l1 = outer[0]
         ok_ = "v%d" % d1["d"]
-        vd = [m for m in l2.c[0].walk() if m.k == "VarDecl" and m.c]
-        cond = l2.c[1].strip() if len(l2.c) == 4 else None
-        if not vd or cond is None or cond.k != "BinaryOperator" or cond.op != "<=":
+        from engine.loops import bounds as loop_bounds
+
+        b2 = loop_bounds(l2, sub)
+        if not b2:
             continue
-        lo = key(vd[0].c[0].strip(), False, sub)
-        hi = key(cond.c[1].strip(), False, sub)
+        lo, hi = b2["init"], b2["upper"]
         want_lo = "(- (* %s %s) (/ %s 2))" % (ok_, nk, nk)
         want_hi = "(+ (* %s %s) (/ %s 2))" % (ok_, nk, nk)
         if "(* %s %s)" % (ok_, nk) not in lo and "(* %s %s)" % (nk, ok_) not in lo:
